@@ -113,7 +113,7 @@ class NodePairRemovalDecoder(ImprovementDecoder):
                 ),
                 -1,
             )
-        ).squeeze()  # (batch_size, graph_size/2)
+        ).squeeze(-1)  # (batch_size, graph_size/2)
 
         return compatibility_pairing
 
